@@ -159,7 +159,16 @@ pub fn record_strategy() -> BoxedStrategy<Record> {
 
 #[derive(Debug, Clone, Serialize, Deserialize, Hash, PartialEq, Eq)]
 pub enum Case {
-    Compress { algo: Algo, payload: Payload },
+    Compress {
+        algo: Algo,
+        payload: Payload,
+        /// 1: the payload is itself the compressor's output for random bytes (pre-compressed
+        /// data: incompressible and starting with the format's own magic); 2: before the
+        /// round trip the decompressor is given a damaged stream (on the same thread) and
+        /// whatever it answers is ignored; other values: plain round trip
+        #[serde(default)]
+        pre: u8,
+    },
     StringCodec(String),
     BytesCodec(Vec<u8>),
     Bincode(Record),
@@ -183,9 +192,38 @@ pub fn eval(c: &Case) -> Outcome {
 
 fn eval_inner(c: &Case) -> Outcome {
     match c {
-        Case::Compress { algo, payload } => {
-            let data = Bytes::from(payload_bytes(payload));
+        Case::Compress { algo, payload, pre } => {
             let (comp, decomp, name) = make(*algo);
+            let mut data = Bytes::from(payload_bytes(payload));
+            let mut extra: Vec<&'static str> = vec![];
+            if pre % 4 == 1 {
+                // pre-compressed payload
+                // (random bytes: the output is about as long as the input; text: a genuine, much
+                // shorter stream of the format that is itself incompressible)
+                let inner = Bytes::from(payload_bytes(&Payload { kind: if payload.seed % 2 == 0 { 0 } else { 4 }, size: payload.size.clamp(64, 200_000), seed: payload.seed }));
+                data = match comp.compress(inner) {
+                    Ok(z) => z,
+                    Err(e) => return Outcome::fail("compress-error", format!("{algo:?}: {e}")),
+                };
+                extra.push("precompressed-payload");
+            }
+            if pre % 4 == 2 && !is_slow(*algo) {
+                // a refused (or half-accepted) payload first: it must leave nothing behind
+                let other = Bytes::from(payload_bytes(&Payload { kind: 4, size: 300_000, seed: payload.seed ^ 0x55 }));
+                if let Ok(z) = comp.compress(other) {
+                    let mut bad = z.to_vec();
+                    let n = bad.len();
+                    if payload.seed % 2 == 0 && n > 12 {
+                        bad.truncate(n - 1 - (payload.seed as usize % 8));
+                    } else if n > 4 {
+                        let i = n - 1 - (payload.seed as usize % 4);
+                        bad[i] ^= 0x5a;
+                    }
+                    let _ = catch(|| decomp.decompress(Bytes::from(bad.clone())));
+                    let _ = catch(|| make(*algo).1.decompress(Bytes::from(bad)));
+                    extra.push("after-a-damaged-stream");
+                }
+            }
             let z = match comp.compress(data.clone()) {
                 Ok(z) => z,
                 Err(e) => return Outcome::fail("compress-error", format!("{algo:?} failed to compress {} bytes: {e}", data.len())),
@@ -197,6 +235,7 @@ fn eval_inner(c: &Case) -> Outcome {
                     if data.len() >= 4096 { l.push("payload>=4KiB"); }
                     if data.len() >= 1 << 20 { l.push("payload-1MiB"); }
                     if z.len() >= data.len() { l.push("incompressible"); }
+                    l.extend(extra.iter().copied());
                     Outcome::pass(l, data.len() >= 4096 && !matches!(algo, Algo::Preset { .. }))
                 }
                 Ok(back) => {
@@ -336,7 +375,7 @@ fn payload_strategy(large: bool) -> BoxedStrategy<Payload> {
 }
 pub fn strategy() -> BoxedStrategy<Case> {
     prop_oneof![
-        10 => (algo_strategy(), payload_strategy(false)).prop_map(|(algo, payload)| Case::Compress { algo, payload }),
+        10 => (algo_strategy(), payload_strategy(false), prop_oneof![4 => Just(0u8), 1 => Just(1u8), 1 => Just(2u8)]).prop_map(|(algo, payload, pre)| Case::Compress { algo, payload, pre }),
         2 => ".{0,200}".prop_map(Case::StringCodec),
         1 => proptest::collection::vec(any::<u8>(), 0..300).prop_map(Case::BytesCodec),
         3 => record_strategy().prop_map(Case::Bincode),
@@ -347,11 +386,11 @@ pub fn strategy() -> BoxedStrategy<Case> {
     .boxed()
 }
 pub fn large_strategy() -> BoxedStrategy<Case> {
-    (algo_strategy().prop_filter("fast enough for 1 MiB in the quick tier", |a| !is_slow(*a)), payload_strategy(true)).prop_map(|(algo, payload)| Case::Compress { algo, payload }).boxed()
+    (algo_strategy().prop_filter("fast enough for 1 MiB in the quick tier", |a| !is_slow(*a)), payload_strategy(true)).prop_map(|(algo, payload)| Case::Compress { algo, payload, pre: 0 }).boxed()
 }
 
 pub fn run(ctx: &mut Ctx) {
-    ctx.rule = "payloads (random/incompressible, one byte repeated, short-period patterns, mixed runs, multi-byte text; sizes 0, 1, tiny, KiBs, up to 64 KiB, and a leg at 200 KiB-1 MiB) x every algorithm/mode/level (gzip 0-9, zlib 0-9, zstd 0-22, lz4, brotli generic/text/font 0-11, the three presets of each); values of the string/bytes/bincode codecs (nested struct with strings, vectors, options, recursive enum); the wire composition encode->batch(k)->compress->decompress->unbatch->decode; invalid UTF-8 (lone continuation, overlong, surrogate, 0xFF, truncated sequence) and truncated bincode must be errors; non-trivial = payload >= 4 KiB or composition with k >= 2 at a level other than a preset, or a codec value/invalid input case; distinct by case hash".into();
+    ctx.rule = "payloads (random/incompressible, one byte repeated, short-period patterns, mixed runs, multi-byte text; sizes 0, 1, tiny, KiBs, up to 64 KiB, and a leg at 200 KiB-1 MiB; in a sixth of the cases the payload is itself the compressor's output for random bytes, in another sixth the decompressor is first given a truncated or bit-flipped stream on the same thread, whose outcome is ignored) x every algorithm/mode/level (gzip 0-9, zlib 0-9, zstd 0-22, lz4, brotli generic/text/font 0-11, the three presets of each); values of the string/bytes/bincode codecs (nested struct with strings, vectors, options, recursive enum); the wire composition encode->batch(k)->compress->decompress->unbatch->decode; invalid UTF-8 (lone continuation, overlong, surrogate, 0xFF, truncated sequence) and truncated bincode must be errors; non-trivial = payload >= 4 KiB or composition with k >= 2 at a level other than a preset, or a codec value/invalid input case; distinct by case hash".into();
     ctx.assumptions.push("levels outside the libraries' documented ranges are out of domain ('supported level')".into());
     ctx.search("transforms", strategy, ctx.tier.pick(12_000, 300_000), true, eval);
     if ctx.failed() { return; }
@@ -365,7 +404,7 @@ pub fn run(ctx: &mut Ctx) {
         all.push(Algo::Lz4);
         for m in 0..3 { for l in 0..12 { all.push(Algo::Brotli { mode: m, level: l }); } }
         for a in 0..6 { for p in 0..3 { all.push(Algo::Preset { algo: a, preset: p }); } }
-        let cases: Vec<Case> = all.iter().flat_map(|a| [3u8, 4].into_iter().map(move |k| Case::Compress { algo: *a, payload: Payload { kind: k, size: 1 << 20, seed: 77 } })).collect();
+        let cases: Vec<Case> = all.iter().flat_map(|a| [3u8, 4].into_iter().map(move |k| Case::Compress { algo: *a, payload: Payload { kind: k, size: 1 << 20, seed: 77 }, pre: 0 })).collect();
         ctx.enumerate("all-levels-1MiB", cases.into_iter(), eval);
     }
 }
